@@ -1284,6 +1284,11 @@ func (d *dealer) syncRemoveSession(sess *wamp.Session) []*wamp.Publish {
 		if errArgs == nil {
 			errArgs = wamp.List{"callee gone"}
 		}
+		// A call canceled in "kill" mode is still waiting for the callee's
+		// answer, which can never come now. Clear the mark so that the cancel
+		// below is not ignored as a repeated one, and the caller gets its
+		// final reply.
+		invk.canceled = false
 		// Use CancelModeSkip so as not to send an INTERRUPT to a callee that
 		// is no longer there.
 		d.syncCancel(caller, &wamp.Cancel{Request: invk.callID.request},
